@@ -27,7 +27,7 @@ def run(ctx):
     rng = ctx.rng
     quick = ctx.tier == "quick"
     shared_stoi, shared_itos = {}, {}
-    for it in range(2500 if quick else 40000):
+    for it in range(2500 if quick else 150000):
         syms = list(SYMS)
         rng.shuffle(syms)
         k = rng.randint(2, len(syms))
